@@ -4,7 +4,7 @@ import json
 import multiprocessing as mp
 import random
 
-from checks import common, editcheck
+from checks import common, editcheck, views_part
 
 CL = {'ObsEq', 'Links', 'ViewsFollow', 'HistoryIndependent.state', 'HistoryIndependent.answers', 'RootIdentity'}
 
@@ -79,7 +79,8 @@ def run(ctx):
     ctx.assumptions += ['correspondence between edited and fresh tree is by child path (pure-AST walk)',
                         'fresh tree built with the same root.indent (documented creation-time attribute)',
                         'f-string internals excluded']
-    ctx.model('ContainersMC', 'ContainersMC', required=('DoPutSlice',))
+    # views: state machine of FSTView windows (re-clipping after foreign edits, extents after edits through the view)
+    views_part.run_views(ctx, n_quick=150, n_thorough=800)
     from corpus.programs import PROGRAMS
     from harness import layouts
     n_hist, n_steps, npat = (240, 6, 2) if ctx.quick else (4000, 12, 3)
@@ -93,6 +94,9 @@ def run(ctx):
 def replay(ctx, path):
     with open(path) as f:
         rp = json.load(f)
+    if rp.get('part') == 'views':
+        views_part.replay_views(ctx, rp)
+        return ctx.finish()
     val = _run(ctx, [(1, rp['seed'], rp['prog'], rp['variant'], rp['nsteps'])], rp.get('npat', 2))
     for batch, scripts, verd in val:
         print('verdict', verd)
